@@ -266,6 +266,12 @@ var ErrClosed = fmt.Errorf("simnet: %w", net.ErrClosed)
 func (e *Endpoint) ReadMsgUDP(b, oob []byte) (n, oobn, flags int, addr *net.UDPAddr, err error) {
 	for {
 		e.mu.Lock()
+		// as on a real socket, a read deadline that has passed fails the
+		// read even when a datagram is waiting
+		if !e.rdl.IsZero() && !e.closed && time.Until(e.rdl) <= 0 {
+			e.mu.Unlock()
+			return 0, 0, 0, nil, timeoutError{}
+		}
 		if len(e.q) > 0 {
 			p := e.q[0]
 			e.q = e.q[1:]
